@@ -467,58 +467,40 @@ func (t *ZeroAllocTokenizer) TokenizeHtmlPreserving() ([]Token, error) {
 		// Move past opening tag
 		t.position = nextTagPos + tagLength
 
-		// Find matching end tag
-		var endTag string
+		// Find matching end tag: endPos is its offset from t.position. A dash directly
+		// in front of the closing characters belongs to the end tag.
 		var endTagType int
 		var endTagLength int
+		endPos := -1
 
 		if tagType == TOKEN_VAR_START || tagType == TOKEN_VAR_START_TRIM {
-			// Look for "}}" or "-}}"
-			endPos1 := strings.Index(t.source[t.position:], "}}")
-			endPos2 := strings.Index(t.source[t.position:], "-}}")
-
-			if endPos1 != -1 && (endPos2 == -1 || endPos1 < endPos2) {
-				endTag = "}}"
-				endTagType = TOKEN_VAR_END
-				endTagLength = 2
-			} else if endPos2 != -1 {
-				endTag = "-}}"
-				endTagType = TOKEN_VAR_END_TRIM
-				endTagLength = 3
-			} else {
+			// Look for "}}" or "-}}" outside string literals
+			closePos := findTagClose(t.source, t.position, '}')
+			if closePos == -1 {
 				return nil, fmt.Errorf("unclosed variable tag at line %d", t.line)
 			}
+			endPos, endTagType, endTagLength = closePos-t.position, TOKEN_VAR_END, 2
+			if endPos > 0 && t.source[closePos-1] == '-' {
+				endPos, endTagType, endTagLength = endPos-1, TOKEN_VAR_END_TRIM, 3
+			}
 		} else if tagType == TOKEN_BLOCK_START || tagType == TOKEN_BLOCK_START_TRIM {
-			// Look for "%}" or "-%}"
-			endPos1 := strings.Index(t.source[t.position:], "%}")
-			endPos2 := strings.Index(t.source[t.position:], "-%}")
-
-			if endPos1 != -1 && (endPos2 == -1 || endPos1 < endPos2) {
-				endTag = "%}"
-				endTagType = TOKEN_BLOCK_END
-				endTagLength = 2
-			} else if endPos2 != -1 {
-				endTag = "-%}"
-				endTagType = TOKEN_BLOCK_END_TRIM
-				endTagLength = 3
-			} else {
+			// Look for "%}" or "-%}" outside string literals
+			closePos := findTagClose(t.source, t.position, '%')
+			if closePos == -1 {
 				return nil, fmt.Errorf("unclosed block tag at line %d", t.line)
+			}
+			endPos, endTagType, endTagLength = closePos-t.position, TOKEN_BLOCK_END, 2
+			if endPos > 0 && t.source[closePos-1] == '-' {
+				endPos, endTagType, endTagLength = endPos-1, TOKEN_BLOCK_END_TRIM, 3
 			}
 		} else if tagType == TOKEN_COMMENT_START {
 			// Look for "#}"
-			endPos := strings.Index(t.source[t.position:], "#}")
+			endPos = strings.Index(t.source[t.position:], "#}")
 			if endPos == -1 {
 				return nil, fmt.Errorf("unclosed comment at line %d", t.line)
 			}
-			endTag = "#}"
 			endTagType = TOKEN_COMMENT_END
 			endTagLength = 2
-		}
-
-		// Find position of the end tag
-		endPos := strings.Index(t.source[t.position:], endTag)
-		if endPos == -1 {
-			return nil, fmt.Errorf("unclosed tag at line %d", t.line)
 		}
 
 		// Get content between tags
@@ -1063,6 +1045,42 @@ func FindNextTag(source string, startPos int) TagLocation {
 	return TagLocation{TAG_NONE, -1, 0}
 }
 
+// findTagClose returns the index of the first closing delimiter (closer followed by
+// '}') at or after startPos that lies neither inside a quoted string of the tag's
+// expression nor, for {{ }} tags, inside a hash literal that is still open, so that
+// {{ '}}' }}, {% set x = '%}' %} and {{ {'a': {'b': 1}} }} end where they should.
+// If the quotes or braces of the tag are not balanced the first occurrence wins, as
+// it always did.
+func findTagClose(source string, startPos int, closer byte) int {
+	plain := -1
+	var quote byte
+	depth := 0
+	for i := startPos; i < len(source)-1; i++ {
+		c := source[i]
+		if c == closer && source[i+1] == '}' {
+			if plain == -1 {
+				plain = i
+			}
+			if quote == 0 && depth == 0 {
+				return i
+			}
+		}
+		switch {
+		case quote == 0 && (c == '\'' || c == '"'):
+			quote = c
+		case quote != 0 && c == '\\':
+			i++ // the escaped character
+		case quote != 0 && c == quote:
+			quote = 0
+		case quote == 0 && closer == '}' && c == '{':
+			depth++
+		case quote == 0 && closer == '}' && c == '}' && depth > 0:
+			depth--
+		}
+	}
+	return plain
+}
+
 // FindTagEnd finds the end of a tag based on the type
 func FindTagEnd(source string, startPos int, tagType TagType) int {
 	if startPos >= len(source) {
@@ -1071,19 +1089,11 @@ func FindTagEnd(source string, startPos int, tagType TagType) int {
 
 	switch tagType {
 	case TAG_VAR, TAG_VAR_TRIM:
-		// Find "}}" sequence
-		for i := startPos; i < len(source)-1; i++ {
-			if source[i] == '}' && source[i+1] == '}' {
-				return i
-			}
-		}
+		// Find "}}" sequence outside string literals
+		return findTagClose(source, startPos, '}')
 	case TAG_BLOCK, TAG_BLOCK_TRIM:
-		// Find "%}" sequence
-		for i := startPos; i < len(source)-1; i++ {
-			if source[i] == '%' && source[i+1] == '}' {
-				return i
-			}
-		}
+		// Find "%}" sequence outside string literals
+		return findTagClose(source, startPos, '%')
 	case TAG_COMMENT:
 		// Find "#}" sequence
 		for i := startPos; i < len(source)-1; i++ {
